@@ -5,6 +5,13 @@
 // template text and compared with the statement's rule (a small reference function), and (ii) written
 // as a quoted, escaped literal into six expression positions and evaluated; every pair of shorter
 // strings is written into three two-literal positions.
+//
+// Further families (each in its own file): L long values written by the library's own literal
+// writer (longlit.go); V every template text also evaluated through Evaluator.TemplateValue, the
+// second way a template is evaluated (value.go); M marker code points - valid code points that
+// readers and decoders give a meaning of their own, such as U+FFFD - in every position of short
+// strings (markers.go); R one Evaluator reused under sequences of contexts that differ in their
+// allowed top-level names (reuse.go).
 package c12
 
 import (
@@ -44,13 +51,14 @@ func allStrings(n int) []string {
 }
 
 type replay struct {
-	Kind     string `json:"kind"` // body | literal
-	Form     string `json:"form,omitempty"`
-	Pair     bool   `json:"pair,omitempty"`
-	S        string `json:"s"`
-	T        string `json:"t,omitempty"`
-	Template string `json:"template,omitempty"`
-	Key      string `json:"key,omitempty"`
+	Kind     string   `json:"kind"` // body | literal | value | reuse
+	Form     string   `json:"form,omitempty"`
+	Pair     bool     `json:"pair,omitempty"`
+	S        string   `json:"s"`
+	T        string   `json:"t,omitempty"`
+	Template string   `json:"template,omitempty"`
+	Key      string   `json:"key,omitempty"`
+	Seq      []string `json:"seq,omitempty"` // reuse: the contexts (by their allowed names) in call order
 }
 
 // shrinker finds, for a failing case, a case from which no single character can be deleted without
@@ -375,6 +383,7 @@ func run(c *mc.Ctx) {
 	})
 	litSh := newShrinker(func(s string) []string { cl, _, _ := failures(false, s, "", nil); return cl })
 	pairSh := newShrinker(func(st string) []string { s, t := splitPair(st); cl, _, _ := failures(true, s, t, nil); return cl })
+	valSh := newValueShrinker()
 
 	// the unit of work is a suffix: all strings ending in it, shortest first, so that the case with
 	// one character of the prefix deleted has already been executed by the same worker
@@ -401,7 +410,9 @@ func run(c *mc.Ctx) {
 			}
 			bodySh.reset()
 			litSh.reset()
+			valSh.reset()
 			r.body(s, bodySh)
+			r.value(s, valSh)
 			r.single(s, litSh)
 		}
 	}
@@ -418,11 +429,13 @@ func run(c *mc.Ctx) {
 		u := suffixes[ui]
 		bodySh.reset()
 		litSh.reset()
+		valSh.reset()
 		var gen func(p string, left int)
 		gen = func(p string, left int) {
 			if left == 0 {
 				s := p + u
 				r.body(s, bodySh)
+				r.value(s, valSh)
 				r.single(s, litSh)
 				return
 			}
@@ -461,8 +474,15 @@ func run(c *mc.Ctx) {
 		}
 		c.Inc("pair_units")
 	}
+	// family M: marker code points; family R: one Evaluator under several contexts
+	if !capped {
+		capped = r.runMarkers(bodySh, litSh, valSh)
+	}
+	if !capped {
+		capped = r.runReuse()
+	}
 	if capped {
-		c.Cap("time budget reached: units (all strings with one 3-character suffix; all first strings for one second string) are taken in a fixed order and every unit started before the cap was completed")
+		c.Cap("time budget reached: units (all strings with one 3-character suffix; all first strings for one second string; all strings with one marker code point and one first character; all strings with one 2-character suffix under every sequence of contexts) are taken in a fixed order and every unit started before the cap was completed")
 	}
 	for ch, n := range r.symCases {
 		c.Add("symbol:"+strconv.QuoteRune(ch), n)
@@ -481,6 +501,19 @@ func replayFn(c *mc.Ctx, raw json.RawMessage) (string, bool) {
 	var rp replay
 	if err := json.Unmarshal(raw, &rp); err != nil {
 		return "bad replay: " + err.Error(), false
+	}
+	if rp.Kind == "reuse" {
+		return replayReuse(rp)
+	}
+	if rp.Kind == "value" {
+		f, ref := checkValue(evalr, baseWorld, rp.S)
+		var v any
+		mc.Guard(func() { v, _, _ = evalr.TemplateValue(env, baseCtx, rp.S) })
+		desc := fmt.Sprintf("template text %q\nEvaluator.TemplateValue: %T %v\nstatement's rule: one expression and nothing else: %v (expression %q, evaluates: %v); text %q (whole text specified: %v)\n", rp.S, v, v, ref.single, ref.expr, ref.ok, ref.text, ref.exact)
+		if f != nil {
+			desc += "PROBLEM " + f.class + ": " + f.what + "\n"
+		}
+		return desc, f != nil
 	}
 	if rp.Kind == "body" {
 		out, failed, pn := evalTemplate(baseCtx, rp.S)
@@ -523,12 +556,21 @@ func guards(r *mc.Result, tier string) []string {
 		"text:unclosed-expression", "text:identifier-evaluated", "text:identifier-fails", "text:expression-evaluated", "text:expression-fails",
 		"text:expression-with-string-literal-evaluated", "text:double-at", "text:at-before-name-that-is-not-allowed", "text:at-at-end", "text:at-before-other-character",
 		"pair:first-ends-with-backslash", "pair:second-ends-with-backslash", "pair:equal-nonempty", "pair:both-contain-quotes",
+		"value:whitespace-trimmed", "value:single-identifier-evaluated", "value:single-expression-evaluated", "value:single-expression-fails", "value:unclosed-expression",
+		"value:expression-then-text-ending-in-parenthesis", "value:two-expressions", "value:two-identifiers", "value:no-at",
+		"marker:next-to-special-character",
+		"reuse:text-means-different-things-in-different-contexts", "reuse:name-allowed-in-one-context-only", "reuse:has-expression",
 	} {
 		if r.Facts[fact] == 0 {
 			f = append(f, "never observed: "+fact)
 		}
 	}
-	for _, k := range []string{"cases:template-text", "cases:one-literal", "cases:two-literals"} {
+	for _, m := range markers {
+		if r.Facts["marker:"+strconv.QuoteRuneToASCII(m)] == 0 || r.Facts["symbol:"+strconv.QuoteRune(m)] == 0 {
+			f = append(f, "no case contained the marker code point "+strconv.QuoteRuneToASCII(m))
+		}
+	}
+	for _, k := range []string{"cases:template-text", "cases:one-literal", "cases:two-literals", "cases:template-value", "cases:reused-evaluator", "marker_strings"} {
 		if r.Counters[k] < 100000 {
 			f = append(f, fmt.Sprintf("counter %s = %d, expected at least 100000", k, r.Counters[k]))
 		}
@@ -541,13 +583,19 @@ func init() {
 		ID:    "C12",
 		Level: "exploration",
 		Rule: "every string of length <= 6 (quick) / 7 (thorough) over the 11 characters {quote, backslash, (, ), @, n, U+0001, newline, é, U+1F600, .} is (i) evaluated as template text by Evaluator.Template in a context binding n and compared with the statement's rule (reference function: `@@` -> `@`; `@(`..matching `)` and `@`+allowed name are expressions; any other `@` literal; where each expression's value comes from the real evaluator) and each expression the scanner cuts is checked against the parser's lexer for closedness; " +
-			"(ii) written with strconv.Quote into `@(Q)`, `x @(Q) y`, `@n@(Q)@n`, `@(Q)@(Q)`, `@(f(Q))`, `@(o[Q])` and expected to evaluate to exactly the string; (iii) every pair of strings of length <= 3 x <= 3 (quick) / <= 4 x <= 3 (thorough) is written into `@(Q & T)`, `@(Q = T)`, `@(f(Q, T))`. " +
-			"evaluations = executed cases (string x position); distinct_nontrivial = cases whose string(s) contain at least one of quote, backslash, parenthesis, @ (every case is a different template).",
+			"(V) evaluated the second way a template is evaluated, Evaluator.TemplateValue, and compared with the same rule applied to the whitespace-trimmed text (exactly one expression and nothing else: that expression's value, an error value if it fails; anything else: the rule's text as a text value); " +
+			"(ii) written with strconv.Quote into `@(Q)`, the value of `@(Q)` (TemplateValue), `x @(Q) y`, `@n@(Q)@n`, `@(Q)@(Q)`, `@(f(Q))`, `@(o[Q])` and expected to evaluate to exactly the string; (iii) every pair of strings of length <= 3 x <= 3 (quick) / <= 4 x <= 3 (thorough) is written into `@(Q & T)`, `@(Q = T)`, `@(f(Q, T))`. " +
+			"(L) values of 21 lengths around every plausible internal limit (63..10001) of 9 kinds of character written by TextLiteral.String(), parsed, evaluated and printed again. " +
+			"(M) for each of 18 marker code points that readers, decoders and lexers give a meaning of their own (U+FFFD the decoder's error marker, U+FEFF, U+FFFE, U+FFFF, U+10FFFF, U+D7FF, U+E000, U+00FF, U+0080, U+007F, U+001A, U+0004, the white space U+0085 U+00A0 U+2028 the lexer does not know, CR, TAB, space): every string of length 1..4 (quick) / 1..5 (thorough) over the 11 characters + the marker that contains the marker goes through (i), (V) and the one-literal positions of (ii), and is also evaluated as template text and for its value standing unescaped inside a literal, `@(\"`+s+`\")`. " +
+			"(R) one Evaluator, several contexts: every string of length 1..4 (quick) / 1..5 (thorough) over the 11 characters is evaluated by Evaluator.Template on ONE fresh Evaluator under every ordered sequence of 2 contexts (thorough: also of 3, for length <= 4) out of 3 contexts that differ in their allowed top-level names ({n,f}, {é,f}, {f}); every call of the sequence is compared with the statement's rule for the context of that call. " +
+			"evaluations = executed cases (string x position; R: calls); distinct_nontrivial = cases whose string(s) contain at least one of quote, backslash, parenthesis, @ (every case is a different template; R: a different template or a different history of calls).",
 		Assumptions: []string{
-			"bounded: alphabet and lengths as stated; allowed top-level names are n and f; one environment",
+			"bounded: alphabet and lengths as stated; allowed top-level names are n and f (family R: three contexts allowing {n,f}, {é,f}, {f}); one environment",
 			"'written as a quoted, escaped string literal' is read as Go's strconv.Quote, the form goflow itself prints literals in",
 			"text after an `@(` that is never closed is unspecified by the statement: only the output before it is compared",
 			"an expression that fails contributes nothing to the output (Evaluator.Template's documented behaviour); the body around it is still compared",
+			"Evaluator.TemplateValue is defined on the whitespace-trimmed template (strings.TrimSpace, its first statement) and, by its own description, equals Template except when the template is a single identifier or expression: the statement's rule is applied to the trimmed text",
+			"NUL is excluded by the statement and is not a marker code point",
 		},
 		Run:    run,
 		Replay: replayFn,
